@@ -355,24 +355,30 @@ func getShallowCommits(st storage.Storer, heads []plumbing.Hash, depth int, upd 
 
 		upd.Unshallows = append(upd.Unshallows, commit.Hash)
 
-		parents := commit.Parents()
-		commit = nil
+		var parents []*object.Commit
+		iter := commit.Parents()
 		for {
-			parent, err := parents.Next()
+			parent, err := iter.Next()
 			if err == io.EOF {
 				break
 			}
 			if err != nil {
 				return err
 			}
-
+			parents = append(parents, parent)
+		}
+		commit = nil
+		for pi, parent := range parents {
 			if depths[parent] != 0 && curDepth >= depths[parent] {
 				continue
 			}
 
 			depths[parent] = curDepth
 
-			if _, err := parents.Next(); err == nil {
+			// Every parent but the last goes on the stack; the last one is
+			// walked next. (Peeking at the iterator to find out whether a
+			// parent is the last one consumed, and lost, the following parent.)
+			if pi < len(parents)-1 {
 				stack = append(stack, parent)
 			} else {
 				commit = parent
